@@ -21,15 +21,43 @@ template<> struct Delegate<void, void*> : public Delegate_Base {
     template<class T> Delegate(T&&) { }
     inline __attribute__((always_inline)) void operator()(void* item) const { harness_ctor(item); }
 };
+// Stand-in for std::unordered_set<Item*, ItemHash, ItemEqual> (libstdc++ hash-table code is outside the property and costs minutes of
+// symbolic execution): a 4-slot array with the same find / emplace / erase / iteration contract, keyed through the real ItemEqual.
+namespace std {
+template<class K, class H, class E> class verif_uset {
+public:
+    K slot[4];
+    struct iterator {
+        K* p; K* e;
+        K& operator*() const { return *p; }
+        K* operator->() const { return p; }
+        iterator& operator++() { do { ++p; } while (p != e && !*p); return *this; }
+        bool operator==(const iterator& r) const { return p == r.p; }
+        bool operator!=(const iterator& r) const { return p != r.p; }
+    };
+    verif_uset() { for (int i = 0; i < 4; i++) slot[i] = nullptr; }
+    verif_uset(verif_uset&& r) { for (int i = 0; i < 4; i++) { slot[i] = r.slot[i]; r.slot[i] = nullptr; } }
+    iterator end() { return iterator{slot + 4, slot + 4}; }
+    iterator begin() { iterator it{slot, slot + 4}; if (!*it.p) ++it; return it; }
+    iterator find(const K& k) { for (int i = 0; i < 4; i++) if (slot[i] && E()(slot[i], k)) return iterator{slot + i, slot + 4}; return end(); }
+    std::pair<iterator, bool> emplace(const K& k) {
+        iterator f = find(k); if (f != end()) return {f, false};
+        for (int i = 0; i < 4; i++) if (!slot[i]) { slot[i] = k; return {iterator{slot + i, slot + 4}, true}; }
+        __CPROVER_assume(false); return {end(), false};
+    }
+    size_t erase(const K& k) { iterator f = find(k); if (f == end()) return 0; *f.p = nullptr; return 1; }
+    size_t size() const { size_t n = 0; for (int i = 0; i < 4; i++) if (slot[i]) n++; return n; }
+};
+}
+#define unordered_set verif_uset
 #define protected public
 #define private public
 #include "common/expirecontainer.cpp"
+#undef unordered_set
 #undef protected
 #undef private
 using namespace photon;
 
-std::pair<bool, std::size_t> std::__detail::_Prime_rehash_policy::_M_need_rehash(std::size_t n_bkt, std::size_t, std::size_t) const
-{ if (n_bkt < 5) return {true, 5}; return {false, 0}; }
 
 struct Obj { int key; int serial; };
 typedef ObjectCache<int, Obj*> OC;
